@@ -40,14 +40,18 @@ theorem alloc_order (s s' : FS) (prev : Option Nat) (zero : Bool) (c : Nat) (hn 
   Lemmas.FatOps.alloc_order s s' prev zero c hn hc h
 
 /-- The payloads of those FAT writes: the new cluster's entry reads as end of chain after its
-write, and the predecessor's entry reads as the new cluster after the last write. -/
+write, and the predecessor's entry reads as the new cluster after the last write.  `hpc`: the
+predecessor is not the cluster being allocated (a predecessor is a cluster in use; if a caller
+passed a free cluster that the search then returns, the link `c → c` would overwrite the
+end-of-chain mark and the first conjunct would be false). -/
 theorem alloc_final_fat (s s' : FS) (prev : Option Nat) (zero : Bool) (c : Nat) (hn : NoFault s) (hc : Coherent s)
     (hb : ∀ i, (s.dev.disk.get i).length = 512) (hg : WFGeom s.vol) (hh : ∀ n, s.vol.nextFreeCluster = some n → 2 ≤ n)
+    (hpc : prev ≠ some c)
     (h : allocCluster prev zero s = (.ok c, s')) :
     decodeNext s.vol.fatType (rawFatEntry s.vol.fatType (s'.dev.disk.get (fatBlock s.vol c)) (fatEntOffset s.vol c)) = .err .EndOfFile ∧
     (∀ p, prev = some p → p ≠ c → p < endCluster s.vol →
       decodeNext s.vol.fatType (rawFatEntry s.vol.fatType (s'.dev.disk.get (fatBlock s.vol p)) (fatEntOffset s.vol p)) = .ok c) :=
-  Lemmas.FatOps.alloc_final_fat s s' prev zero c hn hc hb hg hh h
+  Lemmas.FatOps.alloc_final_fat s s' prev zero c hn hc hb hg hh hpc h
 
 /-- Deleting an entry: the one-byte patch of the directory block is the first write; whatever
 follows are FAT writes of the freed chain. -/
